@@ -238,6 +238,7 @@ pub fn adapt_io(sim: &Sim, id: Id, fd: FdSpec, blocking: bool) {
 
 /// the adapter object is gone (dropped / into_inner): flags restored, fd out of the poller
 fn after_release(sim: &Sim, id: Id, how: &'static str) {
+    crate::ops::attribute_faults(sim);
     let epfd = sim.hk.borrow().epfd;
     let (raw, was_nb, indet, shared_alive) = {
         let st = sim.st.borrow();
